@@ -59,6 +59,7 @@ REQUIRED_COVER = [
     "complete_tree",
     "deviation_bounded_tree",
     "proxy_faithful_to_real_rng",
+    "oracle_forwards_every_owned_draw_like_numpy",
 ]
 ASSUMPTIONS = [
     "the RNG is the only nondeterminism of the three builders; this is asserted, not assumed: numpy's global generator "
@@ -346,22 +347,45 @@ def shape_class(scn, trace):
         return "n_pre!=n_post" if len(scn["pre"]) != len(scn["post"]) else "n_pre==n_post"
     if scn["call"] == "matrix":
         return "all_false" if not any(scn["matrix"]) else "some_true"
-    k = trace[0].value if trace else None
-    if k is None:
-        return "no_draw"
+    if not trace or not trace[0].label.startswith("binomial("):
+        return "no_binomial_draw"
+    k = trace[0].value
     return "draws=0" if k == 0 else ("draws=1" if k == 1 else "draws>=2")
 
 
 class ModelMismatch(Exception):
-    """The draws made by the builder do not have the structure the check models (which draw is for which cell)."""
+    """The draws made by the builder do not have the structure the check models (which draw is for which cell).
+    Not an error: the builder may legitimately draw differently; only the rule that needs the model is skipped."""
+
+
+def sparse_picks(scn, oracle):
+    """(k, [(pre cell, post cell) per drawn connection]) from the cell-level draws of sparse_connect:
+    binomial over n_pre*n_post trials, then k pre cells and k post cells out of the given populations."""
+    calls = oracle.calls
+    n_pre, n_post = len(scn["pre"]), len(scn["post"])
+    if not calls or calls[0]["fn"] != "binomial" or calls[0]["n"] != n_pre * n_post:
+        raise ModelMismatch(f"sparse_connect does not start with binomial({n_pre * n_post}, p): {calls[:1]}")
+    k = calls[0]["value"]
+    if len(calls) < 3 or any(c["fn"] != "choice" for c in calls[1:3]):
+        raise ModelMismatch("sparse_connect: the binomial draw is not followed by two choice draws")
+    if sorted(calls[1]["domain"]) != sorted(scn["pre"]) or sorted(calls[2]["domain"]) != sorted(scn["post"]):
+        raise ModelMismatch("sparse_connect cell draws are not over the given populations")
+    if len(calls[1]["positions"]) != k or len(calls[2]["positions"]) != k:
+        raise ModelMismatch("sparse_connect cell draws do not have size k")
+    picks = list(zip([calls[1]["domain"][i] for i in calls[1]["positions"]], [calls[2]["domain"][i] for i in calls[2]["positions"]]))
+    return k, picks
 
 
 def chosen_comps(scn, oracle, T):
-    """Global compartment indices the oracle handed out as postsynaptic sites (multiset), from the
-    draw structure of the builder. Raises ModelMismatch if the draws do not have the modelled structure."""
+    """Global compartment indices the oracle handed out as postsynaptic sites (multiset), from the modelled
+    draw structure of the builder. Raises ModelMismatch if the draws do not have that structure."""
     calls = oracle.calls
     n_pre, n_post = len(scn["pre"]), len(scn["post"])
     out = []
+
+    def comps_of(c):
+        return list(range(T.off[c], T.off[c + 1]))
+
     if scn["call"] == "fully":
         post_sorted = sorted(scn["post"])
         if len(calls) != n_post or any(c["fn"] != "pandas.sample" for c in calls):
@@ -370,34 +394,31 @@ def chosen_comps(scn, oracle, T):
             if call["obj_len"] != T.ncomp[c] or call["size"] != n_pre:
                 raise ModelMismatch(f"fully_connect group sample not as modelled: {call} for cell {c}")
             out += [T.off[c] + p for p in call["positions"]]
-        return out, None
+        return out
     if scn["call"] == "matrix":
         m = np.asarray(scn["matrix"], dtype=bool).reshape(n_pre, n_post)
-        n_true = int(m.sum())
-        if len(calls) != n_true or any(c["fn"] != "choice" or len(c["positions"]) != 1 for c in calls):
-            raise ModelMismatch(f"connectivity_matrix_connect draw structure not as modelled: {calls}")
-        out = [c["domain"][c["positions"][0]] for c in calls]
-        return out, None
-    # sparse
-    if not calls or calls[0]["fn"] != "binomial":
-        raise ModelMismatch(f"sparse_connect draw structure not as modelled: {calls[:1]}")
-    k = calls[0]["value"]
-    if calls[0]["n"] != n_pre * n_post:
-        raise ModelMismatch(f"sparse_connect binomial over {calls[0]['n']} trials, modelled {n_pre * n_post}")
-    if len(calls) != 3 + k or any(c["fn"] != "choice" for c in calls[1:]):
+        qo = order_of(scn["post"], scn["view"])
+        want = [qo[j] for i in range(n_pre) for j in range(n_post) if m[i, j]]
+        if len(calls) != len(want) or any(c["fn"] != "choice" or len(c["positions"]) != 1 for c in calls):
+            raise ModelMismatch(f"connectivity_matrix_connect draw structure not as modelled: {[c['fn'] for c in calls]}")
+        for c, call in zip(want, calls):
+            if list(call["domain"]) != comps_of(c):
+                raise ModelMismatch(f"connectivity_matrix_connect draws from {call['domain']}, modelled: compartments of cell {c}")
+        return [c["domain"][c["positions"][0]] for c in calls]
+    k, picks = sparse_picks(scn, oracle)
+    if len(calls) != 3 + k or any(c["fn"] != "choice" or len(c["positions"]) != 1 for c in calls[3:]):
         raise ModelMismatch(f"sparse_connect draw structure not as modelled: {[c['fn'] for c in calls]}")
-    if sorted(calls[1]["domain"]) != sorted(scn["pre"]) or sorted(calls[2]["domain"]) != sorted(scn["post"]):
-        raise ModelMismatch("sparse_connect cell draws are not over the given populations")
-    if len(calls[1]["positions"]) != k or len(calls[2]["positions"]) != k:
-        raise ModelMismatch("sparse_connect cell draws do not have size k")
-    for c in calls[3:]:
-        if len(c["positions"]) != 1:
-            raise ModelMismatch("sparse_connect compartment draw is not a single draw")
-        out.append(c["domain"][c["positions"][0]])
-    picks = list(
-        zip([calls[1]["domain"][i] for i in calls[1]["positions"]], [calls[2]["domain"][i] for i in calls[2]["positions"]])
-    )
-    return out, picks
+    cells = []
+    for call in calls[3:]:
+        dom = list(call["domain"])
+        c = T.cell_of(dom[0]) if dom and 0 <= dom[0] < len(T.comps) else None
+        if c is None or dom != comps_of(c):
+            raise ModelMismatch(f"sparse_connect draws a compartment from {dom}, which is not the compartments of one cell")
+        cells.append(c)
+        out.append(dom[call["positions"][0]])
+    if sorted(cells) != sorted(q for _, q in picks):
+        raise ModelMismatch("sparse_connect compartment draws are not for the drawn post cells")
+    return out
 
 
 def check_outcome(scn, oracle, net, before, exc):
@@ -407,7 +428,7 @@ def check_outcome(scn, oracle, net, before, exc):
     trace = oracle.trace
     n_pre, n_post = len(scn["pre"]), len(scn["post"])
     k = None
-    if scn["call"] == "sparse" and trace:
+    if scn["call"] == "sparse" and trace and trace[0].label.startswith("binomial("):
         k = trace[0].value
         cover.append("zero_draws" if k == 0 else ("exactly_one_draw" if k == 1 else "several_draws"))
     if scn["call"] == "matrix":
@@ -423,11 +444,18 @@ def check_outcome(scn, oracle, net, before, exc):
     nb = len(before["rows"])
     rows = after["rows"]
     new = rows[nb:]
+    # model of the draws: needed only for 'post site is the compartment that was drawn' (and, for sparse_connect,
+    # 'the pair is the drawn pair'); a builder that draws differently is judged by all the other rules
+    comps, picks = None, None
     try:
-        comps, picks = chosen_comps(scn, oracle, T)
-        mismatch = None
-    except ModelMismatch as e:
-        comps, mismatch = None, str(e)
+        comps = chosen_comps(scn, oracle, T)
+    except ModelMismatch:
+        cover.append("draw_model_mismatch")
+    if scn["call"] == "sparse":
+        try:
+            _, picks = sparse_picks(scn, oracle)
+        except ModelMismatch:
+            picks = None
 
     # --- table well-formed
     if after["index"] != list(range(len(rows))) or [r.get("global_edge_index") for r in rows] != list(range(len(rows))):
@@ -459,11 +487,17 @@ def check_outcome(scn, oracle, net, before, exc):
             extra = sorted((got - want).elements())
             fails.append(("pairs_multiset", f"missing pairs {miss}, surplus pairs {extra} (pre {scn['pre']} post {scn['post']})", {}))
     else:
-        if len(new) != k:
+        if k is not None and len(new) != k:
             fails.append(("count_equals_binomial_answer", f"{len(new)} new synapses, binomial answer {k}", {}))
         bad = [pq for pq in got_pairs if pq[0] not in pre_set or pq[1] not in post_set]
         if bad:
             fails.append(("pairs_inside_pre_x_post", f"pairs {bad} outside {scn['pre']} x {scn['post']}", {}))
+        elif picks is not None and got != Counter(picks):
+            # the intended cells of a sparse connection are the cells that were drawn for it
+            if Counter(a for a, _ in got_pairs) != Counter(a for a, _ in picks):
+                fails.append(("pre_cell_is_drawn_cell", f"pairs {sorted(got_pairs)}, drawn {sorted(picks)}", {}))
+            else:
+                fails.append(("post_site_in_intended_cell", f"pairs {sorted(got_pairs)}, drawn (pre, post) cells {sorted(picks)}", {}))
         if max(got.values(), default=0) > 1:
             cover.append("same_pair_drawn_twice")
 
@@ -515,10 +549,6 @@ def check_outcome(scn, oracle, net, before, exc):
             cover.append("post_site_not_first_comp_of_cell")
         if any(T.ncomp[p[0]] > 1 for p in got_pairs):
             cover.append("pre_cell_with_several_comps")
-    if mismatch is not None and not fails:
-        # the draws are not the modelled ones, so 'post site equals the chosen compartment' cannot be decided, and
-        # nothing else is wrong with the outcome: the check's model of the builder is out of date
-        raise choices.HarnessError(f"draw structure not as modelled and no violation explains it: {mismatch}")
     state = digest([scn["net"], rows])
     return fails, cover, state
 
@@ -651,6 +681,8 @@ def jobs_of(scn, cfg):
     else:
         cap, md_rule, pols = cfg["cap_complete"][call], None, cfg["policies"][call]
     item_n = max(8, int(cfg["item"] / cost_of(scn, [0])))
+    # budget of the model-free exploration that is used when the builder does not draw the way the planner assumes
+    generic = {"cap": cap, "cap_dev2": cfg["cap_dev2"].get(call, 100), "max_dev": md_rule, "policies": list(pols)}
     roots = [[]]
     if scn["call"] == "sparse":
         roots = [[i] for i in range(len(binom_domain(len(scn["pre"]) * len(scn["post"]), scn["p"])))]
@@ -671,7 +703,8 @@ def jobs_of(scn, cfg):
                     pend.append(r + [0])
                 else:
                     out.append({"scn": scn, "mode": "complete", "root": r, "root_domains": doms[: len(r)], "frozen": frozen,
-                                "max_dev": None, "policies": ["first"], "est": nr, "tree": n, "cost": nr * cost_of(scn, r)})
+                                "max_dev": None, "policies": ["first"], "est": nr, "tree": n, "cost": nr * cost_of(scn, r),
+                                "generic": generic})
         else:
             if md_rule is None:
                 md = 2 if bounded_runs(scn, root, 2) <= cfg["cap_dev2"][call] else 1
@@ -683,7 +716,8 @@ def jobs_of(scn, cfg):
             for pol in pols:
                 est = bounded_runs(scn, root, md)
                 out.append({"scn": scn, "mode": "bounded", "root": list(root), "root_domains": doms[: len(root)], "frozen": frozen,
-                            "max_dev": md, "policies": [pol], "est": est, "tree": n, "cost": est * cost_of(scn, root)})
+                            "max_dev": md, "policies": [pol], "est": est, "tree": n, "cost": est * cost_of(scn, root),
+                            "generic": generic})
     return out
 
 
@@ -839,6 +873,12 @@ def explore(ctx):
                 trees[k] += v
     ctx.note("choice_points_answered", int(pts))
     ctx.note("leaves", dict(trees))
+    off = [r.get("model_off") for _, r in res if r.get("model_off")]
+    if off:
+        # the builder draws differently from the planner's model: those jobs were explored model-free
+        ctx.note("draw_model_mismatch", {"work_items": len(off), "first": off[0]})
+        if trees.get("generic_bounded_jobs") or trees.get("generic:bounded_budget_exhausted"):
+            ctx.exhaustive = False
 
 
 MAX_WITNESSES_PER_SIG = 2
@@ -874,61 +914,146 @@ def work(item):
     return out
 
 
+class _ModelOff(Exception):
+    """The real tree of draws is not the planned one; the job continues with the model-free exploration."""
+
+
+def _check_leaf(scn, o, net, before, exc, out, seen):
+    fails, cover, state = check_outcome(scn, o, net, before, exc)
+    out["cover"].update(cover)
+    out["stats"]["choice_points"] += len(o.trace)
+    out["evals"] += 1
+    out["transitions"] += 1
+    if state is not None:
+        out["digests"].add(state)
+    for rule, msg, extra in fails:
+        _add_violation(out, seen, scn, o, rule, msg, extra)
+    return "draw_model_mismatch" in cover
+
+
+def _runner(scn, policy, box, root_len):
+    def run(prefix):
+        o = choices.Oracle(prefix, policy)
+        try:
+            net, before, exc = execute(scn, o)
+        except choices.PrefixOutOfDomain as e:
+            if len(o.trace) >= root_len:
+                raise  # an answer chosen by the explorer itself must exist: nondeterminism outside the oracle
+            box["last"] = (o, None, None, e)  # a prescribed root answer does not exist in the real tree
+            return o.trace, "invalid_root"
+        box["last"] = (o, net, before, exc)
+        return o.trace, None
+
+    return run
+
+
 def _work_job(job, out, seen):
     scn = job["scn"]
     out["cover"].update(scn_cover(scn))
-    out["cover"].add("complete_tree" if job["mode"] == "complete" else "deviation_bounded_tree")
-    root, rdoms = job["root"], job["root_domains"]
+    try:
+        _explore_planned(job, out, seen)
+        out["cover"].add("complete_tree" if job["mode"] == "complete" else "deviation_bounded_tree")
+    except _ModelOff as e:
+        out["cover"].add("draw_model_mismatch")
+        out["stats"]["jobs_with_unplanned_tree"] += 1
+        out.setdefault("model_off", str(e)[:300])
+        _explore_generic(job, out, seen)
+    if "sample" not in out:
+        out["sample"] = {"scenario": scn, "mode": job["mode"], "root": job["root"], "max_dev": job["max_dev"], "tree_leaves": job["tree"]}
+
+
+def _explore_planned(job, out, seen):
+    """Explore the tree the planner computed from its model of the builder's draws. Every leaf re-validates the
+    model; the first sign that the builder draws differently ends the planned exploration (_ModelOff)."""
+    scn, root, rdoms = job["scn"], job["root"], job["root_domains"]
     for policy in job["policies"]:
         box = {}
-
-        def run(prefix):
-            o = choices.Oracle(prefix, policy)
-            try:
-                net, before, exc = execute(scn, o)
-            except choices.PrefixOutOfDomain as e:
-                if len(o.trace) >= len(root):
-                    raise  # an answer chosen by the explorer itself must exist: nondeterminism outside the oracle
-                box["last"] = (o, None, None, e)  # the planner's root does not exist in the real tree
-                return o.trace, "invalid_root"
-            box["last"] = (o, net, before, exc)
-            return o.trace, None
-
-        n, raised, planner_off, nfails = 0, False, None, 0
-        for r in choices.explore(run, root=root, max_dev=job["max_dev"], frozen=job["frozen"], max_runs=20 * job["est"] + 50):
+        n, raised = 0, False
+        for r in choices.explore(_runner(scn, policy, box, len(root)), root=root, max_dev=job["max_dev"], frozen=job["frozen"],
+                                 max_runs=20 * job["est"] + 50):
             o, net, before, exc = box["last"]
-            n += 1
-            raised = raised or exc is not None
+            if r.result == "invalid_root":
+                raise _ModelOff(f"{exc}")
             for i, d in enumerate(rdoms):
                 if i < len(r.trace) and r.trace[i].n != d:
-                    planner_off = f"choice point {i} has domain {r.trace[i].n}, planner assumed {d}: {scn}"
-            if r.result == "invalid_root":
-                planner_off = f"{exc}: {scn}"
-                continue
-            fails, cover, state = check_outcome(scn, o, net, before, exc)
-            nfails += len(fails)
-            out["cover"].update(cover)
-            out["stats"]["choice_points"] += len(o.trace)
-            if state is not None:
-                out["digests"].add(state)
-            for rule, msg, extra in fails:
-                _add_violation(out, seen, scn, o, rule, msg, extra)
-        out["evals"] += n
-        out["transitions"] += n
+                    raise _ModelOff(f"choice point {i} has {r.trace[i].n} alternatives, the planner assumed {d}")
+            n += 1
+            raised = raised or exc is not None
+            if _check_leaf(scn, o, net, before, exc, out, seen):
+                raise _ModelOff("the draws of this leaf do not have the modelled structure")
         out["stats"][f"{scn['call']}:{job['mode']}"] += n
-        if planner_off is not None:
-            # the tree is not the one that was planned (the split into roots may miss or repeat subtrees); acceptable
-            # only if the outcomes themselves violate the property, which is then what gets reported
-            if nfails == 0:
-                raise choices.HarnessError("planned tree differs from the real one and no violation explains it: " + planner_off)
-            out["stats"]["jobs_with_unplanned_tree"] += 1
-        elif job["mode"] == "complete" and n != job["est"]:
-            # the planner's leaf count is exact; only an exception raised before all draws were made can shrink a tree
+        if job["mode"] == "complete" and n != job["est"]:
+            # the model matched on every leaf, so the planner's leaf count is exact; only an exception raised before
+            # all draws were made can shrink a tree. Anything else is a defect of the explorer itself.
             if n > job["est"] or not raised:
                 raise choices.HarnessError(f"complete job ran {n} leaves, planned {job['est']}: {job}")
             out["stats"]["complete_jobs_smaller_than_planned"] += 1
-    if "sample" not in out:
-        out["sample"] = {"scenario": scn, "mode": job["mode"], "root": root, "max_dev": job["max_dev"], "tree_leaves": job["tree"]}
+
+
+def _bounded_estimate(doms, max_dev):
+    alts = [d - 1 for d in doms]
+    s1 = sum(alts)
+    s2 = (s1 * s1 - sum(a * a for a in alts)) // 2
+    return 1 + (s1 if max_dev >= 1 else 0) + (s2 if max_dev >= 2 else 0)
+
+
+def _explore_generic(job, out, seen):
+    """Model-free exploration of the real tree of draws (whatever the builder draws, as long as the oracle owns it):
+    complete when the tree is small, deviation-bounded around the default policies otherwise. The outcome rules that
+    do not need the model are applied to every leaf."""
+    scn, g = job["scn"], job["generic"]
+    frozen = job["frozen"]
+    box = {}
+    # does the frozen part of the planned root (the binomial answer of sparse_connect) exist as planned?
+    head = job["root"][:frozen]
+    trace, res = _runner(scn, "first", box, len(head))(list(head))
+    frozen_ok = res is None and all(i < len(trace) and trace[i].n == d for i, d in enumerate(job["root_domains"][:frozen]))
+    if frozen_ok:
+        # siblings that only differ below the frozen part would all explore the same subtree: the first one does it
+        if any(job["root"][frozen:]):
+            out["stats"]["generic:left_to_sibling_job"] += 1
+            return
+        root = list(head)
+    else:
+        if any(job["root"]):
+            out["stats"]["generic:left_to_sibling_job"] += 1
+            return
+        root, frozen = [], 0
+        trace, res = _runner(scn, "first", box, 0)([])
+    o, net, before, exc = box["last"]
+    _check_leaf(scn, o, net, before, exc, out, seen)  # the probe is a real execution
+    doms = [p.n for p in trace[max(len(root), frozen):]]
+    done_complete = False
+    if math.prod(doms) <= g["cap"]:
+        try:
+            n = 0
+            for r in choices.explore(_runner(scn, "first", box, len(root)), root=root, frozen=frozen, max_runs=3 * g["cap"] + 10):
+                o, net, before, exc = box["last"]
+                _check_leaf(scn, o, net, before, exc, out, seen)
+                n += 1
+            out["stats"][f"{scn['call']}:generic_complete"] += n
+            out["cover"].add("complete_tree")
+            done_complete = True
+        except choices.BudgetExceeded:
+            out["stats"]["generic:tree_larger_than_probe_suggested"] += 1
+    if not done_complete:
+        md = 2 if _bounded_estimate(doms, 2) <= g["cap_dev2"] else (1 if _bounded_estimate(doms, 1) <= max(g["cap"], g["cap_dev2"]) else 0)
+        if g["max_dev"] is not None:
+            md = min(md, g["max_dev"])
+        pols = g["policies"] if job["mode"] == "complete" else job["policies"]
+        for policy in pols:
+            n = 0
+            try:
+                for r in choices.explore(_runner(scn, policy, box, len(root)), root=root, frozen=frozen, max_dev=md,
+                                         max_runs=30 * _bounded_estimate(doms, md) + 200):
+                    o, net, before, exc = box["last"]
+                    _check_leaf(scn, o, net, before, exc, out, seen)
+                    n += 1
+            except choices.BudgetExceeded:
+                out["stats"]["generic:bounded_budget_exhausted"] += 1
+            out["stats"][f"{scn['call']}:generic_bounded<={md}"] += n
+        out["cover"].add("deviation_bounded_tree")
+        out["stats"]["generic_bounded_jobs"] += 1
 
 
 def _edges_or_exc(net, exc):
@@ -940,6 +1065,8 @@ def _edges_or_exc(net, exc):
 def _work_forward(item, out, seen):
     """Self test: with the oracle answering like numpy's generator, jaxley behaves exactly as without interception,
     and the oracle consumed exactly as much of the random stream as the un-intercepted call (it sees every draw)."""
+    if choices.selftest_forwarding(tuple(item["seeds"])) > 0:
+        out["cover"].add("oracle_forwards_every_owned_draw_like_numpy")
     for scn in item["scns"]:
         T = tabs(scn["net"])
         for si, seed in enumerate(item["seeds"]):
